@@ -28,6 +28,7 @@ EXPLANATION = (
     "The reversal kernel (revert_conditional) is interpreted with an uninterpreted solve: observed factor and gain come from the blocks of the triangularised joint factor, every model hands the "
     "caller's solve to it, and the backward noise factor is R_XY (exact solves) or carries the residual of a least-squares gain."
 )
+TRUSTED_VALUE_PRIMITIVES = ("lstsq_svd",)  # the solvers hand linalg.lstsq_svd to the reversal kernel for the initial-constraint update
 LEVEL = "other"
 TECHNIQUE = "units-of-measure and symbolic shape type inference over the abstract interpreter's terms (segmented axes for block matrices, typed vmap / einsum / QR / triangular solves); affine matrix-word normal form (free algebra with diagonal scalings and transposes) for value identities of means and of Gram matrices of covariance factors"
 LEVEL_TEXT = (
@@ -365,6 +366,12 @@ def normal_rules(chk, S, r3, fam):
             gets = [g for g in T.subterms(sel) if g.op == "getitem" and g.args[1] is idx]
             ok = len(gets) == 1 and "probe" in T.atoms_of(gets[0])
             detail = f"selector({T.show(probe)}) = {T.show(sel, 4)}"
+            # ... and it is a pure selection: the stored state holds the derivatives themselves, so the datum is compared with entry i as it is --
+            # nothing but indexing / (un)flattening / array construction lies between the state and the selected entry
+            arith = sorted({t_.op for t_ in T.subterms(sel) if t_.op in ("mul", "div", "add", "sub", "neg", "pow", "matmul", "np.factorial", "np.sqrt", "np.abs", "np.exp", "np.sum", "np.dot", "np.power")})
+            if ok and arith:
+                ok = False
+                detail += f": the selected entry is transformed ({', '.join(arith)}) -- the observed quantity is no longer the stored derivative i"
         else:
             # second recognised idiom: rows lo:hi of an identity matrix; must be the i-th block of a common width
             Aop = td.fields["A"]
